@@ -41,7 +41,9 @@ GC_CONFIGS = [("default", {}), ("none", {"gc": 0}), ("gc:1", {"gc": 1}), ("gc:2"
 
 
 def spec(tier):
-    s = cfgdiff.Spec("C10", GC_CONFIGS, "none", "c10", "no forced collection", {"quick": 400, "thorough": 1200})
+    cfgs = GC_CONFIGS if tier == "thorough" else [c for c in GC_CONFIGS if c[0] in ("default", "none", "gc:1", "gc:3", "gc:50")]
+    s = cfgdiff.Spec("C10", cfgs, "none", "c10", "no forced collection", {"quick": 250, "thorough": 1200})
+    s.quick_grid, s.quick_corpus = 300, 150
     return s
 
 
@@ -192,7 +194,7 @@ def weak_lines(ops, res):
 
 
 def generate_scripts(tier, seed):
-    n = 700 if tier == "quick" else 6000
+    n = 500 if tier == "quick" else 6000
     seen, scripts = set(), []
 
     def on(tag, o):
